@@ -1158,7 +1158,7 @@ def run(ctx):
         pairs = [[a, b2] for a in contaminators[ctx.seed % 7::7] for b2 in singles[ctx.seed % 97::97]]
     hists += pairs
     n_exh = len(hists) - n_corpus
-    nrand = 5000 if thorough else 400
+    nrand = 4000 if thorough else 400
     for i in range(nrand):
         hists.append(gen_history(rng, 8 if thorough else 6, indent_ok=(i % 5 == 0), reentrant=(i % 3 == 1)))
     # ---------------------------------------------------------------- correspondence (traced runs vs model)
